@@ -183,6 +183,8 @@ type engSession struct {
 	stat  map[string]int
 	seq   int
 	maskOverride int // >0: statistics mask for EUpdate
+	strictDaily  bool // the C17 discipline holds in this session: one update per day, same-day check-ins
+	c17total     [3]float64 // reported flights, travellers(not summed), distance over the run
 }
 
 var sessionCounter int
@@ -667,6 +669,50 @@ func (s *engSession) update(now uint64) (int64, flap.UpdateBackfillStats) {
 		_ = yDist
 		_ = yFlights
 		_ = yTrav
+		if s.strictDaily {
+			// C17 from the harness's own tally of accepted flights
+			order := make([]int, len(s.trav))
+			for i := range order {
+				order[i] = i
+			}
+			sort.Slice(order, func(a, b int) bool { return s.trav[order[a]].keyHex < s.trav[order[b]].keyHex })
+			var wantF, wantT uint64
+			wantD := 0.0
+			for _, i := range order {
+				fs := append([]flap.VerifFlight{}, s.trav[i].accepted...)
+				sort.SliceStable(fs, func(a, b int) bool { return fs[a].Start < fs[b].Start })
+				d := 0.0
+				n := uint64(0)
+				for _, f := range fs {
+					if uint64(f.Start) < now && now-uint64(f.Start) <= 86400 && f.Distance > 0 {
+						d += float64(f.Distance)
+						n++
+					}
+				}
+				if d > 0 {
+					wantD += d
+					wantT++
+					wantF += n
+				}
+			}
+			if wantF != st.Flights {
+				s.fail("C17", "flight-count-differs-from-flights-checked-in", fmt.Sprintf("update(%d) reports %d flights, %d accepted flights departed in the preceding 24 hours", now, st.Flights, wantF))
+			}
+			if wantT != st.Travellers {
+				s.fail("C17", "traveller-count-differs", fmt.Sprintf("update(%d) reports %d travellers, %d distinct travellers flew in the preceding 24 hours", now, st.Travellers, wantT))
+			}
+			if fbits(wantD) != fbits(float64(st.Distance)) {
+				if math.Abs(wantD-float64(st.Distance)) > 1e-9*math.Max(1, math.Abs(wantD)) {
+					s.fail("C17", "distance-differs-from-flights-checked-in", fmt.Sprintf("update(%d) reports distance %v, accepted flights of the preceding 24 hours add up to %v", now, float64(st.Distance), wantD))
+				}
+			}
+			if wantF > 0 {
+				s.stat["c17_updates_with_flights"]++
+			}
+			if wantT > 1 {
+				s.stat["c17_updates_with_several_travellers"]++
+			}
+		}
 	}
 	for i := range s.trav {
 		if s.proj != "C02" {
